@@ -6,12 +6,84 @@ from .common import *
 META = {
     "level": "other",
     "explanation": "Confinement and offset consistency of the six delimiting classes (Prefixed, FixedSized, OffsettedEnd, NullTerminated, NullStripped, ProcessXor): (R1) on every successful parse path the inner construct runs on a substream created in this method from data read from the outer stream, and nothing touches the outer stream after that read-out, so the outer position is fixed before the inner construct runs, whatever it consumes; (R2) the outer exit position is what the delimiter's contract says -- Prefixed: after the length field plus the announced length (minus the field's own size iff includelength); FixedSized: entry + length; OffsettedEnd: end + endoffset, with the tell/seek-end/tell/seek-back probe restoring the current position; NullTerminated: reads are exactly len(term) wide, the terminator is part of the region data iff `include`, the stream steps back by len(term) iff not `consume`, EOF is re-raised iff `require`; (R3) the substream is a BytesIOWithOffsets whose offset argument is a tell of the outer stream taken where the region's first byte lies, BytesIOWithOffsets.__init__ stores that offset, tell() adds it and absolute seek() subtracts the same attribute (relative seeks are passed through) and returns tell().",
-    "undecided": "NullStripped's multi-byte strip loop (value-level); behaviour for overlong regions beyond the stream_read length check; Transformed/Restreamed/ProcessRotateLeft/Tunnel substreams are plain by documentation ('do NOT use seeking/telling classes inside').",
+    "undecided": "behaviour for overlong regions beyond the stream_read length check; Transformed/Restreamed/ProcessRotateLeft/Tunnel substreams are plain by documentation ('do NOT use seeking/telling classes inside').",
     "trusted_base": ["python ast (3.12)", "sa.summ summariser", "sa.pos position algebra", "io.BytesIO semantics"],
     "assumptions": ["Tell/RawCopy/Pointer/Lazy use only stream_tell/stream_seek (C06.R1), hence see BytesIOWithOffsets.tell/seek"],
 }
 
 CLASSES = ("Prefixed", "FixedSized", "OffsettedEnd", "NullTerminated", "NullStripped", "ProcessXor")
+
+
+def conjuncts(p):
+    out = []
+    def flat(c):
+        if c[0] == "bool" and c[1] == "and":
+            for x in c[2]:
+                flat(x)
+        else:
+            out.append(c)
+    for g in p.guards():
+        flat(g)
+    return out
+
+
+def null_stripped(ctx, fi, paths):
+    """R4: the inner construct sees the whole region except trailing bytes that were compared with the pad.
+
+    Every byte cut off the end of the region data must have been compared equal to the pad (or to a prefix of it, for a trailing partial
+    unit) on that path: data.rstrip(pad) for a one-byte pad, and for longer pads each shortening step of the end index is justified by an
+    equality guard between exactly the dropped slice and the pad."""
+    pad = N.selfattr("pad")
+    unit = ("call", ("free", "len"), (pad,), ())
+    n = 0
+    for p in paths:
+        new = [e for e in p.events if e.kind == "NEWSTREAM"]
+        rd = [e for e in p.events if e.kind == "READALL"]
+        if not p.returns or len(new) != 1 or len(rd) != 1:
+            continue
+        n += 1
+        D = rd[0]["res"]
+        lenD = ("call", ("free", "len"), (D,), ())
+        tail = N.mk_mod(lenD, unit)
+        data = new[0]["args"][0]
+        cj = conjuncts(p)
+        if data == D:
+            ok, why = True, "whole region"
+        elif data == ("call", ("attr", D, "rstrip"), (pad,), ()):
+            ok, why = N.mk_cmp("==", unit, N.const(1)) in cj, "rstrip(pad) only for a one-byte pad (bytes.rstrip strips a set of byte values, not units)"
+        elif data[0] == "sub" and data[1] == D and data[2][0] == "slice" and data[2][1] == N.const(None) and data[2][3] == N.const(None):
+            E = data[2][2]
+            steps, ok = [], True
+            cur = E
+            lvs = [x for x in N.walk(E) if x[0] == "lv"]
+            if lvs:
+                lv = lvs[0]
+                # last iteration dropped exactly one unit, under the guard that this unit equals the pad
+                ok = ok and cur == N.mk_add(lv, unit, -1)
+                want = N.mk_cmp("==", pad, ("sub", D, ("slice", N.mk_add(lv, unit, -1), lv, N.const(None))))
+                ok = ok and want in cj
+                steps.append("unit loop")
+                cur = lv[3]
+            if cur == N.mk_add(lenD, tail, -1):
+                want = N.mk_cmp("==", ("sub", pad, ("slice", N.const(None), tail, N.const(None))), ("sub", D, ("slice", N.mk_neg(tail), N.const(None), N.const(None))))
+                ok = ok and want in cj
+                steps.append("partial tail")
+            elif cur != lenD:
+                ok = False
+                steps.append("unrecognised end %s" % N.show(cur))
+            why = "each shortening step (%s) is guarded by dropped-slice == pad" % ", ".join(steps or ["none"])
+        else:
+            ok, why = False, "unrecognised region data %s" % N.show(data)
+        ctx.ob("C08.R4", fi, ok, "NullStripped hands the inner construct the region minus bytes that compared equal to the pad: %s" % why, key="stripped bytes are pad: %s" % why)
+    # loop-carried: in the iteration assumption of every non-final iteration the same guard holds (the loop condition is that guard)
+    loops = uniq_events(paths, "LOOP")
+    for lp in loops:
+        c = lp["iter"]
+        cs = c[2] if c[0] == "bool" and c[1] == "and" else (c,)
+        ok = any(x[0] == "cmp" and x[1] == "==" and pad in x[2:] and any(y[0] == "sub" and y[2][0] == "slice" for y in x[2:]) for x in cs)
+        ctx.ob("C08.R4", fi, ok, "the strip loop continues only while the unit before the end index equals the pad", key="loop condition")
+        n += 1
+    return n
 
 
 def run(ctx):
@@ -92,9 +164,12 @@ def run(ctx):
                 ctx.ob("C08.R2", fi, fin == END(STREAM), "%s takes the rest of the stream as its region" % cls, key="extent")
         if cls == "NullTerminated":
             null_terminated(ctx, fi, paths)
+        if cls == "NullStripped":
+            null_stripped(ctx, fi, paths)
     ctx.floor("C08.R1", 30)
     ctx.floor("C08.R2", 12)
     ctx.floor("C08.R3", 12)
+    ctx.floor("C08.R4", 6)
 
     # ---- BytesIOWithOffsets itself
     off = N.selfattr("parent_stream_offset")
